@@ -12,6 +12,7 @@ Tie:
       NULL distinguishable, framing of the whole record stream, replay text = text of the passed values.
 Findings: F6 (NULL stored as "NULL"), S1 (stores before the size check: slice overrun).
 """
+import glob
 import json
 import os
 import re
@@ -35,6 +36,18 @@ FILL = 0xa5
 # specs: abstract description -> option text (what the user writes) and model token
 # (Python re-implementation of utils/argspec.c:parse_argspec for the forms generated here)
 # ---------------------------------------------------------------------------------------------
+def run_model(lines):
+    """C.run_model; the shared uvmodel binary is briefly absent while another builder relinks it"""
+    import time
+    for attempt in range(6):
+        try:
+            return C.run_model("C09", lines)
+        except (FileNotFoundError, PermissionError, OSError):
+            if attempt == 5:
+                raise
+            time.sleep(5)
+
+
 class Spec:
     def __init__(self, kind, n=0, fmt=None, bits=None, loc=None, tsize=None, tregs=None):
         self.kind, self.n, self.fmt, self.bits, self.loc = kind, n, fmt, bits, loc
@@ -412,6 +425,8 @@ def cfmt_float(size, v):
         mant, e = v & M64, (v >> 64) & 0x7fff
         if not ((e == 0 and mant == 0) or (0 < e < 0x7fff and mant >> 63)):
             return None
+        if e and abs(e - 16383) > 900:
+            return None             # outside the range of a Python float
         x = ld80_to_float(v)
     if x != x or x in (float("inf"), float("-inf")):
         return None
@@ -912,6 +927,19 @@ def hdr(time, typ, more, depth, addr):
     return struct.pack("<QQ", time, w & M64)
 
 
+def cleanup_shm(r):
+    """libmcount pre-allocates a second shared-memory buffer that is never announced: remove it too"""
+    for typ, payload in r["msgs"]:
+        if typ == "REC_START":
+            name = payload.decode(errors="replace").rstrip("\0")
+            if name.startswith("/uftrace-") and name.endswith("-000"):
+                for f in glob.glob("/dev/shm" + name[:-3] + "*"):
+                    try:
+                        os.unlink(f)
+                    except OSError:
+                        pass
+
+
 def run_proc(ctx, exe, lay, p, idx):
     script = []
     t = 1000
@@ -927,6 +955,7 @@ def run_proc(ctx, exe, lay, p, idx):
         t += 100
     script.append("END")
     r = h1.run(ctx, exe, p.env(), script, idx, timeout=120)
+    cleanup_shm(r)
     p.raw = r
     out = r["lines"]
     if not out or not out[0].startswith("SYMS ") or out[0] != lay.raw or len(out) != len(script) + 1:
@@ -1107,6 +1136,8 @@ def run(ctx):
     with ThreadPoolExecutor(2) as ex:
         fut_make = ex.submit(ctx.make)
         probes = [h1.run(ctx, exe, {"UFTRACE_MAX_STACK": "8"}, ["END"], 9000 + i) for i in range(2)]
+        for pr in probes:
+            cleanup_shm(pr)
         if any(not pr["lines"] or not pr["lines"][0].startswith("SYMS ") for pr in probes) or \
                 probes[0]["lines"][0] != probes[1]["lines"][0]:
             C.violation(ctx, "harness", {"kind": "harness-failed", "what": "driver addresses are not stable",
@@ -1141,7 +1172,7 @@ def run(ctx):
     def model_run(fx):
         res = {}
         for p in procs:
-            res[p.name] = C.run_model("C09", model_lines(p, lay, fx))
+            res[p.name] = run_model(model_lines(p, lay, fx))
         return res
     with ThreadPoolExecutor(4) as ex:
         mres = dict(zip(variants, ex.map(model_run, variants)))
@@ -1164,7 +1195,7 @@ def run(ctx):
             rec_index.append((p, i, len(rec_lines), len(er)))
             for (t, ty, d, a, pay) in er:
                 rec_lines.append("REC %d %d %d %x %s" % (t, ty, d, a, pay))
-    rec_out = C.run_model("C09", rec_lines)
+    rec_out = run_model(rec_lines)
     rec_diffs = []
     for p, i, a, n in rec_index:
         c = p.calls[i]
@@ -1243,6 +1274,7 @@ def run(ctx):
 
     # ---- H3: model payloads read by the real replay ----------------------------------------------
     h3 = run_h3(ctx, procs, lay, best, made_ok, make_log, thorough)
+    h5 = run_h5(ctx, made_ok)
 
     # ---- verdict ----------------------------------------------------------------------------------
     def describe(p, i):
@@ -1290,7 +1322,8 @@ def run(ctx):
             d.update({"kind": "property-violated-on-implementation", "theorem": "C01 register preservation",
                       "what": w2 + " although every string pointer was readable and the data fitted"})
             C.violation(ctx, "xmm-%s-%d" % (q.name, j), d)
-        what = ("C09-S2 save_to_argbuf calls snprintf (unreadable string pointer) and save_argument calls pr_warn "
+        what = ("; ".join(["end to end: " + x for x in h5["s2"]] + [""]) if h5["s2"] else "") + \
+               ("C09-S2 save_to_argbuf calls snprintf (unreadable string pointer) and save_argument calls pr_warn "
                 "(data too big) while the traced function's floating-point argument registers are live: %d calls "
                 "returned from the entry hook with changed xmm registers (%d with an unreadable pointer, the others "
                 "too big); %d later floating-point arguments were captured wrongly (first: %s %s: %s)"
@@ -1310,6 +1343,7 @@ def run(ctx):
     # F6
     if mon["null"]:
         p, i, w = mon["null"][0]
+        w = w + "".join("; end to end: " + x for x in h5["f6"])
         if f6_present and "F6" in kf:
             C.known(ctx, kf["F6"], "F6 a NULL string argument is recorded as the characters \"NULL\" "
                                    "(replayed as f(\"NULL\")); implementation matches the pre-fix model; " + w)
@@ -1324,7 +1358,12 @@ def run(ctx):
                                       "pre-fix NULL model but the monitor saw no collision"}, True)
     # S1
     if mon["bounds"]:
-        p, i, w = mon["bounds"][0]
+        # show the most telling case first: data that was accepted although a byte beyond the slice was written
+        acc = [b for b in mon["bounds"] if b[0].calls[b[1]].tag.startswith("prefill=") and
+               kv(b[0].calls[b[1]].impl_e).get("arg") == "1"]
+        p, i, w = (acc or mon["bounds"])[0]
+        if acc:
+            w += " and the data was recorded (size field %s)" % kv(p.calls[i].impl_e).get("sz")
         if s1_present and "S1" in kf:
             C.known(ctx, kf["S1"], "S1 save_to_argbuf stores values before checking the total size: %d calls wrote "
                                    "beyond their 1024-byte slice (first: %s %s: %s); implementation matches the "
@@ -1340,6 +1379,16 @@ def run(ctx):
                                       "pre-fix bounds model but no call left its slice"}, True)
     for v in h3["violations"][:3]:
         C.violation(ctx, v[0], v[1], no_failing_input=v[2])
+    h5_left = list(h5["other"])
+    if h5["f6"] and not mon["null"]:
+        h5_left += h5["f6"]
+    if h5["s2"] and not mon["xmm"]:
+        h5_left += h5["s2"]
+    if h5_left:
+        C.violation(ctx, "h5", {"kind": "property-violated-on-implementation", "what": h5_left,
+                                "program": "harness/c09_h5.c", "options": H5_OPTS, "replay": h5.get("replay"),
+                                "native_stdout": h5.get("native_stdout"), "traced_stdout": h5.get("traced_stdout"),
+                                "theorem": "c09_parse_pack"})
 
     samples = []
     for p in procs[:2] + procs[-1:]:
@@ -1347,7 +1396,7 @@ def run(ctx):
         samples.append({"proc": p.name, "specs": [s.text() for s in p.fns.get(c.fn, [])], "tag": c.tag,
                         "impl_exit": c.impl_x[:200], "records": c.impl_recs[:160]})
     ctx.coverage.update({
-        "evaluations": 2 * ncalls + h3["calls"],
+        "evaluations": 2 * ncalls + h3["calls"] + (len(H5_EXPECT) if h5["ran"] else 0),
         "distinct_nontrivial": len(distinct),
         "rule": "H1: per process a table of up to 31 functions with spec lists; per call a full machine state "
                 "(6 integer registers, 8 xmm, 110 stack words, return value, xmm0/st0 at exit, string pointers: "
@@ -1363,6 +1412,7 @@ def run(ctx):
         "monitor_failures": {k: len(v) for k, v in mon.items()},
         "calls_out_of_bounds": len(mon["bounds"]),
         "h3": {k: v for k, v in h3.items() if k != "violations"},
+        "h5": h5,
         "exhaustive": False,
         "samples": samples,
     })
@@ -1383,6 +1433,10 @@ def run_h3(ctx, procs, lay, fx, made_ok, make_log, thorough):
         res["violations"].append(("h3-build", {"kind": "harness-build-failed", "log": make_log[-2000:]}, True))
         return res
     uft = os.path.join(ctx.src, "uftrace")
+    if not os.path.exists(uft):
+        res["violations"].append(("h3-build", {"kind": "harness-build-failed", "what": "no uftrace binary after make",
+                                               "log": make_log[-2000:]}, True))
+        return res
     # choose processes: string sweep, null cases, randoms
     chosen = [p for p in procs if p.name in ("string-lengths", "null-and-unreadable") or p.name.startswith("random-")]
     if not thorough:
@@ -1461,7 +1515,7 @@ def run_h3(ctx, procs, lay, fx, made_ok, make_log, thorough):
         for (ci, c, pa, pr, et, rt) in expect:
             pl.append("PARSE %d E %s" % (c.fn, ((pa or b"") + b"\0" * ((-len(pa or b"")) % 8) + b"\xee\xee").hex()))
             pl.append("PARSE %d X %s" % (c.fn, ((pr or b"") + b"\0" * ((-len(pr or b"")) % 8) + b"\xee\xee").hex()))
-        mo = C.run_model("C09", pl)[1 + len(p.fns):]
+        mo = run_model(pl)[1 + len(p.fns):]
         for j, (ci, c, pa, pr, et, rt) in enumerate(expect):
             res["calls"] += 1
             got = lines[j]
@@ -1507,6 +1561,73 @@ def run_h3(ctx, procs, lay, fx, made_ok, make_log, thorough):
                         "specs": [s.text() for s in specs], "replay": got.decode("utf-8", "replace")[:500],
                         "expected": line_of(et, rt).decode("utf-8", "replace")[:500], "tag": c.tag,
                         "theorem": "c09_parse_pack"}, False))
+    return res
+
+
+H5_OPTS = ["-A", "mix@arg1/s,fparg1,fparg2/32,arg2/i64", "-R", "mix@retval/f", "-A", "pick@arg1/i32,arg2/s",
+           "-R", "pick@retval/s", "-A", "ld@fparg1/80%stack+1,arg1/i32", "-R", "ld@retval/f80"]
+H5_EXPECT = [b'mix("h\xc3\xa9llo", 1.500000, 0.250000, -3) = 0.250000;',
+             b'mix(NULL, 2.500000, 0.500000, 7) = 12.500000;',
+             b'mix("<0x10>", 3.500000, 0.750000, 100001) = 100008.750000;',
+             b'pick(1, "NULL") = "NULL";',
+             b'pick(0, "x") = NULL;',
+             b'ld(1.250000, 4) = 5.000000;']
+
+
+def run_h5(ctx, made_ok):
+    """end to end: a -pg program under the snapshot's `uftrace record`"""
+    res = {"ran": False, "f6": [], "s2": [], "other": []}
+    if not made_ok:
+        return res
+    exe = os.path.join(ctx.scratch, "c09_h5")
+    r = C.sh(["gcc", "-pg", "-O1", "-o", exe, os.path.join(C.VERIF, "harness/c09_h5.c")])
+    if r.returncode != 0:
+        res["other"].append("cannot build the traced program: " + r.stdout[-300:])
+        return res
+    uft = os.path.join(ctx.src, "uftrace")
+    if not os.path.exists(uft):
+        return res
+    d = os.path.join(ctx.scratch, "h5-data")
+    env = dict(os.environ)
+    env.pop("UFTRACE_DIR", None)
+    try:
+        native = subprocess.run([exe], stdout=subprocess.PIPE, stderr=subprocess.PIPE, timeout=20, env=env).stdout
+        rec = subprocess.run(["timeout", "40", uft, "record", "--libmcount-path=" + os.path.join(ctx.src, "libmcount"),
+                              "--no-event", "--no-pager", "-d", d] + H5_OPTS + [exe],
+                             stdout=subprocess.PIPE, stderr=subprocess.PIPE, timeout=60, env=env)
+        rep = subprocess.run(["timeout", "20", uft, "replay", "-d", d, "--no-pager", "--color=no", "-F", "main"],
+                             stdout=subprocess.PIPE, stderr=subprocess.PIPE, timeout=30, env=env)
+    except subprocess.TimeoutExpired:
+        res["other"].append("record/replay timed out")
+        return res
+    res["ran"] = True
+    res["native_stdout"] = native.decode("utf-8", "replace").strip()
+    res["traced_stdout"] = rec.stdout.decode("utf-8", "replace").strip()
+    if rec.returncode != 0 or rep.returncode != 0:
+        res["other"].append("record rc=%d replay rc=%d: %s" % (rec.returncode, rep.returncode,
+                                                                  (rec.stderr + rep.stderr)[-300:].decode("utf-8", "replace")))
+        return res
+    if rec.stdout != native:
+        res["s2"].append("the traced program printed %r, without tracing %r" % (res["traced_stdout"], res["native_stdout"]))
+    got = []
+    for l in rep.stdout.split(b"\n"):
+        m = REPLAY_LINE.match(l)
+        if m and re.match(rb"(mix|pick|ld)\(", m.group(2)):
+            got.append(m.group(2))
+    res["replay"] = [g.decode("utf-8", "replace") for g in got]
+    if len(got) != len(H5_EXPECT):
+        res["other"].append("replay shows %d of the %d calls" % (len(got), len(H5_EXPECT)))
+        return res
+    for i, (g, e) in enumerate(zip(got, H5_EXPECT)):
+        if g == e:
+            continue
+        txt = "replay shows %r, the call was %r" % (g.decode("utf-8", "replace"), e.decode("utf-8", "replace"))
+        if i in (1, 4) and g == e.replace(b"NULL", b'"NULL"'):
+            res["f6"].append(txt)
+        elif i == 2:
+            res["s2"].append(txt)
+        else:
+            res["other"].append(txt)
     return res
 
 
